@@ -60,7 +60,7 @@ DeviationNames == {"NoneAttrIterated", "NoneDelimiterPrinted", "OverwritePending
                    "RadContentBeforeDeg", "DescendantPropLookup"}
 Dev(d) == d \in Deviations
 
-Exception == "Exception"
+\* a conversion result: [x |-> an exception was raised, o |-> output atoms (<<>> when x)]
 WS == " "
 
 (* ---- symbol table: the standard LaTeX name of each character (GREEK_TO_LATEX) ---- *)
@@ -268,7 +268,7 @@ ProcNode(n, p) ==
 \* omml_to_latex: children of m:oMath in order, then flush what the register still owes
 Conv(tree) ==
     LET r == ProcSeq(tree, <<>>) IN
-    IF r.x THEN Exception ELSE r.o \o Rep("}", Len(r.p))
+    [x |-> r.x, o |-> IF r.x THEN <<>> ELSE r.o \o Rep("}", Len(r.p))]
 
 (* ============================ DECLARATIVE PART ============================ *)
 \* pattern item: the output atom must be in `as`; opt: may be missing; bud: may be missing, charged
@@ -377,7 +377,7 @@ Run(items, obs, budget, J) ==
          IN Run(Tail(items), obs, budget, adv \cup skip \cup paid)
 
 Matches(out, pat) ==
-    LET o1 == NoWS(out)
+    LET o1 == NoWS(out.o)
         obs == IF pat.budget = 0 THEN o1 ELSE SelectSeq(o1, LAMBDA a : a \notin Braces)
     IN \E q \in Run(pat.items, obs, pat.budget, {<<0, 0>>}) : q[1] = Len(obs)
 
@@ -385,7 +385,7 @@ RECURSIVE Depth(_, _, _)
 \* brace depth after s[i..], -1 once it went negative
 Depth(s, i, d) == IF d < 0 THEN 0 - 1 ELSE IF i > Len(s) THEN d
                   ELSE Depth(s, i + 1, IF s[i] = "{" THEN d + 1 ELSE IF s[i] = "}" THEN d - 1 ELSE d)
-Balanced(out) == Depth(out, 1, 0) = 0
+Balanced(out) == Depth(out.o, 1, 0) = 0
 
 RECURSIVE LiteralBraceN(_), LiteralBraceNodes(_), LiteralBraceContents(_)
 LiteralBraceN(n) ==
@@ -397,7 +397,7 @@ LiteralBraceNodes(ns) == ns # <<>> /\ (LiteralBraceN(Head(ns)) \/ LiteralBraceNo
 LiteralBraceContents(cs) == cs # <<>> /\ (LiteralBraceNodes(Head(cs)) \/ LiteralBraceContents(Tail(cs)))
 HasLiteralBrace(tree) == LiteralBraceNodes(tree)
 
-Total(out) == out # Exception
+Total(out) == ~out.x
 Shape(tree, out) == Matches(out, Pattern(tree))
 Balance(tree, out) == HasLiteralBrace(tree) \/ Balanced(out)
 
